@@ -1,4 +1,5 @@
 import Ptn.C02.CompositeWF
+import Ptn.C02.OpsLabels
 /-! `truncate_node` / `recursive_truncation` restore the structure exactly (identifiers, root, parent map,
 children **lists**).  Core Lean only. -/
 namespace Ptn.C02
@@ -19,16 +20,18 @@ structure TempOK (S0 : Id → Option Struct) (ids : TTN.TempIds) : Prop where
 theorem S_none_of_N {t : TTN} {k : Id} (h : t.N k = none) : t.S k = none := by simp [TTN.S, h]
 
 /-- One iteration of the first loop of `truncate_node`. -/
-theorem trunc_step1 {t t' : TTN} {n c : Id} {ids : TTN.TempIds} {k : Nat} {gp : Option Id} {L cch : List Id}
-    (h : t.WF) (hN : t.S n = some (gp, L)) (hC : t.S c = some (some n, cch))
+theorem trunc_step1 {P : Prop} {O : Id → List Axis} {t t' : TTN} {n c : Id} {ids : TTN.TempIds} {k : Nat}
+    {gp : Option Id} {L cch : List Id}
+    (hx : t.WFX P O) (hN : t.S n = some (gp, L)) (hC : t.S c = some (some n, cch))
     (hi : t.S (ids.ident c) = none) (hs : t.S (ids.star c) = none) (hp : t.S (ids.proj c) = none)
     (his : ids.ident c ≠ ids.star c) (hip : ids.ident c ≠ ids.proj c) (hsp : ids.star c ≠ ids.proj c)
     (hrun : (do let (t0, _) ← t.access n; TTN.insertProjectors t0 n c ids k) = some t') :
-    t'.WF ∧ t'.root = t.root ∧
+    t'.WFX P O ∧ t'.root = t.root ∧
       t'.S = fun x => if x = ids.star c then some (some n, [ids.proj c])
                else if x = ids.proj c then some (some (ids.star c), [c])
                else if x = c then some (some (ids.proj c), cch)
                else if x = n then some (gp, L.map (fun y => if y = c then ids.star c else y)) else t.S x := by
+  have h := hx.wf
   simp only [bind, Option.bind] at hrun
   cases hacc : t.access n with
   | none => simp [hacc] at hrun
@@ -73,7 +76,36 @@ theorem trunc_step1 {t t' : TTN} {n c : Id} {ids : TTN.TempIds} {k : Nat} {gp : 
           (ids.star c) (ids.proj c) := by
         refine ⟨hX, Or.inr e_s, Or.inr e_p, by rw [← eX.2]; simp, ?_⟩
         exact Or.inl ⟨n, eX.1.symm, rfl, rfl, Or.inl ⟨rfl, rfl⟩⟩
-      refine ⟨split_nodes_wf_aux w1 adm hrun, ?_⟩
+      have hop : ∀ k', t'.openAxes k' = t.openAxes k' := by
+        intro k'
+        obtain ⟨_, _, _, oa⟩ := access_labels hacc
+        obtain ⟨_, _, _, i1, i2⟩ := ident_labels w0 hnew hins
+        obtain ⟨a, b, _, _, Lx, hcfg, _, _, _, _, _, _, so, si, _, sid, sby⟩ := split_labels w1 adm hrun
+        have hab : (a = ids.star c ∧ b = ids.proj c) ∨ (a = ids.proj c ∧ b = ids.star c) := by
+          rcases hcfg with ⟨e1, e2, _⟩ | ⟨e1, e2, _⟩
+          · exact Or.inl ⟨e1, e2⟩
+          · exact Or.inr ⟨e1, e2⟩
+        have hts : t.openAxes (ids.star c) = [] := openAxes_none (N_none_of_S hs)
+        have htp : t.openAxes (ids.proj c) = [] := openAxes_none (N_none_of_S hp)
+        have hti : t.openAxes (ids.ident c) = [] := openAxes_none (N_none_of_S hi)
+        by_cases k1 : k' = ids.star c
+        · rw [k1, so, hts]; rfl
+        · by_cases k2 : k' = ids.proj c
+          · rw [k2, si, htp]; rfl
+          · by_cases k3 : k' = ids.ident c
+            · have : ids.ident c ≠ a ∧ ids.ident c ≠ b := by
+                rcases hab with ⟨e1, e2⟩ | ⟨e1, e2⟩
+                · rw [e1, e2]; exact ⟨his, hip⟩
+                · rw [e1, e2]; exact ⟨hip, his⟩
+              rw [k3, (sid this.1 this.2).2, hti]
+            · have hk'ab : k' ≠ a ∧ k' ≠ b := by
+                rcases hab with ⟨e1, e2⟩ | ⟨e1, e2⟩
+                · rw [e1, e2]; exact ⟨k1, k2⟩
+                · rw [e1, e2]; exact ⟨k2, k1⟩
+              rw [(sby k' hk'ab.1 hk'ab.2 k3).2, (i2 k' k3).2, oa k']
+      refine ⟨⟨split_nodes_wf_aux w1 adm hrun,
+        fun hP => split_lwf w1 (ident_lwf w0 (access_lwf (hx.lwf hP) hacc) hnew hins) adm hrun,
+        fun hP k' => (hop k').trans (hx.op hP k')⟩, ?_⟩
       obtain ⟨a', b', aCh, bCh, hcfg, S2, R2⟩ := split_S_eq w1 adm hrun
       rcases hcfg with ⟨rfl, rfl, rfl, rfl, _⟩ | ⟨_, _, _, _, hc⟩
       · constructor
@@ -83,14 +115,36 @@ theorem trunc_step1 {t t' : TTN} {n c : Id} {ids : TTN.TempIds} {k : Nat} {gp : 
       · simp at hc
 
 /-- One iteration of `contract_all_children(n)` in `truncate_node`. -/
-theorem trunc_step2 {t t' : TTN} {n s p : Id} {gp : Option Id} {L pch : List Id} (h : t.WF)
+theorem trunc_step2 {P : Prop} {O : Id → List Axis} {t t' : TTN} {n s p : Id} {gp : Option Id}
+    {L pch : List Id} (hx : t.WFX P O)
     (hN : t.S n = some (gp, L)) (hS : t.S s = some (some n, [p])) (hP : t.S p = some (some s, pch))
+    (hOs : P → O s = [])
     (hc : t.contractNodes n s n = some t') :
-    t'.WF ∧ t'.root = t.root ∧
+    t'.WFX P O ∧ t'.root = t.root ∧
       t'.S = fun k => if k = n then some (gp, L.erase s ++ [p]) else if k = s then none
                else if k = p then some (some n, pch) else t.S k := by
+  have h := hx.wf
   have hnew : n = n ∨ n = s ∨ t.N n = none := Or.inl rfl
-  refine ⟨contract_nodes_wf_aux h hnew hc, ?_⟩
+  have hns : n ≠ s := h.str.parent_ne hS
+  have hopx : P → ∀ k, t'.openAxes k = O k := by
+    intro hp k
+    obtain ⟨pid, cid, hids, _, _, _, _, _, cnew, cgone, cby⟩ := contract_labels h hnew hc
+    have hpc : (pid = n ∧ cid = s) ∨ (pid = s ∧ cid = n) := hids
+    have hsO : t.openAxes s = [] := by rw [hx.op hp s]; exact hOs hp
+    by_cases k1 : k = n
+    · rw [k1, cnew, hsO, List.append_nil]; exact hx.op hp n
+    · by_cases k2 : k = s
+      · rw [k2, hOs hp]
+        refine (cgone s (fun e => hns e.symm) ?_).2
+        rcases hpc with ⟨_, e⟩ | ⟨e, _⟩
+        · exact Or.inr e.symm
+        · exact Or.inl e.symm
+      · have : k ≠ pid ∧ k ≠ cid := by
+          rcases hpc with ⟨e1, e2⟩ | ⟨e1, e2⟩
+          · rw [e1, e2]; exact ⟨k1, k2⟩
+          · rw [e1, e2]; exact ⟨k2, k1⟩
+        rw [(cby k k1 this.1 this.2).2]; exact hx.op hp k
+  refine ⟨⟨contract_nodes_wf_aux h hnew hc, fun hp => contract_lwf h (hx.lwf hp) hnew hc, hopx⟩, ?_⟩
   obtain ⟨pid, cid, gp', Pch, Cch, e1, e2, hpc, S', R'⟩ := contract_S_eq h hnew hc
   have hpid : pid = n ∧ cid = s := by
     rcases hpc with ⟨a, b⟩ | ⟨a, b⟩
@@ -113,14 +167,36 @@ theorem trunc_step2 {t t' : TTN} {n s p : Id} {gp : Option Id} {L pch : List Id}
   · rw [S']; exact contract_star_S h.str _ hN hS hP
 
 /-- One iteration of the last loop of `truncate_node`: the projector is merged into the original child. -/
-theorem trunc_step3 {t t' : TTN} {n p c : Id} {gp : Option Id} {L cch : List Id} (h : t.WF)
+theorem trunc_step3 {P : Prop} {O : Id → List Axis} {t t' : TTN} {n p c : Id} {gp : Option Id}
+    {L cch : List Id} (hx : t.WFX P O)
     (hN : t.S n = some (gp, L)) (hP : t.S p = some (some n, [c])) (hC : t.S c = some (some p, cch))
+    (hOp : P → O p = [])
     (hc : t.contractNodes p c c = some t') :
-    t'.WF ∧ t'.root = t.root ∧
+    t'.WFX P O ∧ t'.root = t.root ∧
       t'.S = fun k => if k = c then some (some n, cch) else if k = p then none
                else if k = n then some (gp, L.map (fun x => if x = p then c else x)) else t.S k := by
+  have h := hx.wf
   have hnew : c = p ∨ c = c ∨ t.N c = none := Or.inr (Or.inl rfl)
-  refine ⟨contract_nodes_wf_aux h hnew hc, ?_⟩
+  have hpc' : p ≠ c := h.str.parent_ne hC
+  have hopx : P → ∀ k, t'.openAxes k = O k := by
+    intro hp k
+    obtain ⟨pid, cid, hids, _, _, _, _, _, cnew, cgone, cby⟩ := contract_labels h hnew hc
+    have hpc : (pid = p ∧ cid = c) ∨ (pid = c ∧ cid = p) := hids
+    have hpO : t.openAxes p = [] := by rw [hx.op hp p]; exact hOp hp
+    by_cases k1 : k = c
+    · rw [k1, cnew, hpO, List.nil_append]; exact hx.op hp c
+    · by_cases k2 : k = p
+      · rw [k2, hOp hp]
+        refine (cgone p hpc' ?_).2
+        rcases hpc with ⟨e, _⟩ | ⟨_, e⟩
+        · exact Or.inl e.symm
+        · exact Or.inr e.symm
+      · have : k ≠ pid ∧ k ≠ cid := by
+          rcases hpc with ⟨e1, e2⟩ | ⟨e1, e2⟩
+          · rw [e1, e2]; exact ⟨k2, k1⟩
+          · rw [e1, e2]; exact ⟨k1, k2⟩
+        rw [(cby k k1 this.1 this.2).2]; exact hx.op hp k
+  refine ⟨⟨contract_nodes_wf_aux h hnew hc, fun hp => contract_lwf h (hx.lwf hp) hnew hc, hopx⟩, ?_⟩
   obtain ⟨pid, cid, gp', Pch, Cch, e1, e2, hpc, S', R'⟩ := contract_S_eq h hnew hc
   have hpid : pid = p ∧ cid = c := by
     rcases hpc with ⟨a, b⟩ | ⟨a, b⟩
@@ -181,11 +257,12 @@ structure Inv1 (S0 S : Id → Option Struct) (ids : TTN.TempIds) (n : Id) (gp : 
   ch : ∀ c ∈ D, ∀ cch, S0 c = some (some n, cch) → S c = some (some (ids.proj c), cch)
   frame : ∀ k, k ≠ n → k ∉ D → (∀ c ∈ D, k ≠ ids.star c ∧ k ≠ ids.proj c) → S k = S0 k
 
-theorem loop1 {S0 : Id → Option Struct} {ids : TTN.TempIds} {n : Id} {gp : Option Id} {cs : List Id}
+theorem loop1 {P : Prop} {O : Id → List Axis} {S0 : Id → Option Struct} {ids : TTN.TempIds} {n : Id}
+    {gp : Option Id} {cs : List Id}
     (X : TruncCtx S0 ids n gp cs) (kdim : Id → Nat) :
-    ∀ (R D : List Id) (t t' : TTN), cs = D ++ R → t.WF → Inv1 S0 t.S ids n gp D R →
+    ∀ (R D : List Id) (t t' : TTN), cs = D ++ R → t.WFX P O → Inv1 S0 t.S ids n gp D R →
       TTN.truncLoop1 t n ids kdim R = some t' →
-      t'.WF ∧ t'.root = t.root ∧ Inv1 S0 t'.S ids n gp cs [] := by
+      t'.WFX P O ∧ t'.root = t.root ∧ Inv1 S0 t'.S ids n gp cs [] := by
   intro R
   induction R with
   | nil =>
@@ -318,11 +395,12 @@ theorem inv2_of_inv1 {S0 S : Id → Option Struct} {ids : TTN.TempIds} {n : Id} 
     (h : Inv1 S0 S ids n gp cs []) : Inv2 S0 S ids n gp cs [] cs :=
   ⟨by simpa using h.n_, h.st, h.pr, by simp, by simp, h.ch, h.frame⟩
 
-theorem loop2 {S0 : Id → Option Struct} {ids : TTN.TempIds} {n : Id} {gp : Option Id} {cs : List Id}
-    (X : TruncCtx S0 ids n gp cs) :
-    ∀ (F E : List Id) (t t' : TTN), cs = E ++ F → t.WF → Inv2 S0 t.S ids n gp cs E F →
+theorem loop2 {P : Prop} {O : Id → List Axis} {S0 : Id → Option Struct} {ids : TTN.TempIds} {n : Id}
+    {gp : Option Id} {cs : List Id}
+    (X : TruncCtx S0 ids n gp cs) (hO : P → ∀ k, S0 k = none → O k = []) :
+    ∀ (F E : List Id) (t t' : TTN), cs = E ++ F → t.WFX P O → Inv2 S0 t.S ids n gp cs E F →
       (F.map ids.star).foldlM (fun (t : TTN) s => t.contractNodes n s n) t = some t' →
-      t'.WF ∧ t'.root = t.root ∧ Inv2 S0 t'.S ids n gp cs cs [] := by
+      t'.WFX P O ∧ t'.root = t.root ∧ Inv2 S0 t'.S ids n gp cs cs [] := by
   intro F
   induction F with
   | nil =>
@@ -343,7 +421,8 @@ theorem loop2 {S0 : Id → Option Struct} {ids : TTN.TempIds} {n : Id} {gp : Opt
       rw [hcs] at hnd
       have hcE : c ∉ E := fun hm => (List.nodup_append.mp hnd).2.2 c hm c (by simp) rfl
       have hcF : c ∉ F := (List.nodup_cons.mp (List.nodup_append.mp hnd).2.1).1
-      obtain ⟨w1, R1, S1⟩ := trunc_step2 w inv.n_ (inv.stF c (by simp)) (inv.prF c (by simp)) hstep
+      obtain ⟨w1, R1, S1⟩ := trunc_step2 w inv.n_ (inv.stF c (by simp)) (inv.prF c (by simp))
+        (fun hp => hO hp _ (X.ok.fs c)) hstep
       have hL : ((c :: F).map ids.star ++ E.map ids.proj).erase (ids.star c) ++ [ids.proj c] =
           F.map ids.star ++ (E ++ [c]).map ids.proj := by
         simp
@@ -436,11 +515,12 @@ theorem final_of_inv3 {S0 S : Id → Option Struct} {ids : TTN.TempIds} {n : Id}
         · rw [e, h.stN c hc, X.ok.fs c]
         · rw [e, h.prG c hc, X.ok.fp c]
 
-theorem loop3 {S0 : Id → Option Struct} {ids : TTN.TempIds} {n : Id} {gp : Option Id} {cs : List Id}
-    (X : TruncCtx S0 ids n gp cs) :
-    ∀ (H G : List Id) (t t' : TTN), cs = G ++ H → t.WF → Inv3 S0 t.S ids n gp cs G H →
+theorem loop3 {P : Prop} {O : Id → List Axis} {S0 : Id → Option Struct} {ids : TTN.TempIds} {n : Id}
+    {gp : Option Id} {cs : List Id}
+    (X : TruncCtx S0 ids n gp cs) (hO : P → ∀ k, S0 k = none → O k = []) :
+    ∀ (H G : List Id) (t t' : TTN), cs = G ++ H → t.WFX P O → Inv3 S0 t.S ids n gp cs G H →
       TTN.truncLoop3 t (H.map ids.proj) = some t' →
-      t'.WF ∧ t'.root = t.root ∧ Inv3 S0 t'.S ids n gp cs cs [] := by
+      t'.WFX P O ∧ t'.root = t.root ∧ Inv3 S0 t'.S ids n gp cs cs [] := by
   intro H
   induction H with
   | nil =>
@@ -481,7 +561,7 @@ theorem loop3 {S0 : Id → Option Struct} {ids : TTN.TempIds} {n : Id} {gp : Opt
     | some t1 =>
       simp only [hstep, bind, Option.bind] at hrun
       have hrun' : TTN.truncLoop3 t1 (H.map ids.proj) = some t' := hrun
-      obtain ⟨w1, R1, S1⟩ := trunc_step3 w inv.n_ hSp hSc hstep
+      obtain ⟨w1, R1, S1⟩ := trunc_step3 w inv.n_ hSp hSc (fun hp => hO hp _ (X.ok.fp c)) hstep
       have hGnode : ∀ g ∈ G, ∃ st, S0 g = some st := by
         intro g hg
         obtain ⟨x, hx⟩ := X.hc g (by rw [hcs]; simp [hg])
@@ -555,9 +635,11 @@ theorem loop3 {S0 : Id → Option Struct} {ids : TTN.TempIds} {n : Id} {gp : Opt
       exact ⟨w', R'.trans R1, I'⟩
 
 /-- **One `truncate_node` (without the recursive calls) restores the structure exactly.** -/
-theorem truncate_step_full {t t' : TTN} {n : Id} {ids : TTN.TempIds} {kdim : Id → Nat} (h : t.WF)
+theorem truncate_step_full {P : Prop} {O : Id → List Axis} {t t' : TTN} {n : Id} {ids : TTN.TempIds}
+    {kdim : Id → Nat} (hx : t.WFX P O) (hO : P → ∀ k, t.S k = none → O k = [])
     (hok : TempOK t.S ids) (hs : t.truncateNodeStep n ids kdim = some t') :
-    t'.WF ∧ t'.root = t.root ∧ t'.S = t.S := by
+    t'.WFX P O ∧ t'.root = t.root ∧ t'.S = t.S := by
+  have h := hx.wf
   unfold TTN.truncateNodeStep at hs
   cases hN : dget t.nodes n with
   | none => simp [hN, bind, Option.bind] at hs
@@ -579,7 +661,7 @@ theorem truncate_step_full {t t' : TTN} {n : Id} {ids : TTN.TempIds} {kdim : Id 
       simp only [h1] at hs
       have inv0 : Inv1 t.S t.S ids n Nn.parent [] Nn.children :=
         ⟨by simpa using TTN.S_eq hNn, by simp, by simp, by simp, fun _ _ _ _ => rfl⟩
-      obtain ⟨w1, R1, I1⟩ := loop1 X kdim Nn.children [] t t1 (by simp) h inv0 h1
+      obtain ⟨w1, R1, I1⟩ := loop1 X kdim Nn.children [] t t1 (by simp) hx inv0 h1
       have I2 := inv2_of_inv1 I1
       cases h2 : t1.contractAllChildren n n with
       | none => simp [h2] at hs
@@ -592,7 +674,7 @@ theorem truncate_step_full {t t' : TTN} {n : Id} {ids : TTN.TempIds} {kdim : Id 
         simp only [hN1', bind, Option.bind] at h2
         have hch1 : N1.children = Nn.children.map ids.star := by rw [← e1.2]; simp
         rw [hch1] at h2
-        obtain ⟨w2, R2, I2'⟩ := loop2 X Nn.children [] t1 t2 (by simp) w1 I2 h2
+        obtain ⟨w2, R2, I2'⟩ := loop2 X hO Nn.children [] t1 t2 (by simp) w1 I2 h2
         have I3 := inv3_of_inv2 I2'
         obtain ⟨N2, hN2, e2⟩ := TTN.N_of_S I3.n_
         simp only [Prod.mk.injEq] at e2
@@ -600,13 +682,15 @@ theorem truncate_step_full {t t' : TTN} {n : Id} {ids : TTN.TempIds} {kdim : Id 
         simp only [hN2'] at hs
         have hch2 : N2.children = Nn.children.map ids.proj := by rw [← e2.2]; simp
         rw [hch2] at hs
-        obtain ⟨w3, R3, I3'⟩ := loop3 X Nn.children [] t2 t' (by simp) w2 I3 hs
+        obtain ⟨w3, R3, I3'⟩ := loop3 X hO Nn.children [] t2 t' (by simp) w2 I3 hs
         exact ⟨w3, R3.trans (R2.trans R1), final_of_inv3 X I3'⟩
 
-theorem fold_same {f : TTN → Id → Option TTN} {S0 : Id → Option Struct} {r0 : Option Id}
-    (hf : ∀ t c t', t.WF → t.S = S0 → t.root = r0 → f t c = some t' → t'.WF ∧ t'.root = r0 ∧ t'.S = S0) :
-    ∀ (cs : List Id) (t t' : TTN), t.WF → t.S = S0 → t.root = r0 → cs.foldlM f t = some t' →
-      t'.WF ∧ t'.root = r0 ∧ t'.S = S0 := by
+theorem fold_same {P : Prop} {O : Id → List Axis} {f : TTN → Id → Option TTN} {S0 : Id → Option Struct}
+    {r0 : Option Id}
+    (hf : ∀ t c t', t.WFX P O → t.S = S0 → t.root = r0 → f t c = some t' →
+      t'.WFX P O ∧ t'.root = r0 ∧ t'.S = S0) :
+    ∀ (cs : List Id) (t t' : TTN), t.WFX P O → t.S = S0 → t.root = r0 → cs.foldlM f t = some t' →
+      t'.WFX P O ∧ t'.root = r0 ∧ t'.S = S0 := by
   intro cs
   induction cs with
   | nil => intro t t' w hS hR h; simp at h; subst h; exact ⟨w, hR, hS⟩
@@ -622,14 +706,14 @@ theorem fold_same {f : TTN → Id → Option TTN} {S0 : Id → Option Struct} {r
 
 /-- **`truncate_node` (with the recursion) restores the structure exactly**: same identifiers, same root,
     same parent of every node and the same child **lists** (order included). -/
-theorem truncate_node_full {ids : TTN.TempIds} {kdim : Id → Nat} :
-    ∀ (fuel : Nat) (t t' : TTN) (n : Id), t.WF → TempOK t.S ids →
-      TTN.truncateNode fuel t n ids kdim = some t' → t'.WF ∧ t'.root = t.root ∧ t'.S = t.S := by
+theorem truncate_node_full {P : Prop} {O : Id → List Axis} {ids : TTN.TempIds} {kdim : Id → Nat} :
+    ∀ (fuel : Nat) (t t' : TTN) (n : Id), t.WFX P O → (P → ∀ k, t.S k = none → O k = []) → TempOK t.S ids →
+      TTN.truncateNode fuel t n ids kdim = some t' → t'.WFX P O ∧ t'.root = t.root ∧ t'.S = t.S := by
   intro fuel
   induction fuel with
-  | zero => intro t t' n _ _ h; simp [TTN.truncateNode] at h
+  | zero => intro t t' n _ _ _ h; simp [TTN.truncateNode] at h
   | succ fuel ih =>
-    intro t t' n w hok h
+    intro t t' n w hO hok h
     simp only [TTN.truncateNode] at h
     cases hN : dget t.nodes n with
     | none => simp [hN, bind, Option.bind] at h
@@ -639,11 +723,11 @@ theorem truncate_node_full {ids : TTN.TempIds} {kdim : Id → Nat} :
       | none => simp [h3] at h
       | some t3 =>
         simp only [h3] at h
-        obtain ⟨w3, R3, S3⟩ := truncate_step_full w hok h3
+        obtain ⟨w3, R3, S3⟩ := truncate_step_full w hO hok h3
         have := fold_same (f := fun t c => TTN.truncateNode fuel t c ids kdim) (S0 := t.S) (r0 := t.root)
           (by
             intro t1 c t2 w1 hS1 hR1 hrun
-            obtain ⟨a, b, c'⟩ := ih t1 t2 c w1 (by rw [hS1]; exact hok) hrun
+            obtain ⟨a, b, c'⟩ := ih t1 t2 c w1 (by rw [hS1]; exact hO) (by rw [hS1]; exact hok) hrun
             exact ⟨a, b.trans hR1, c'.trans hS1⟩)
           Nn.children t3 t' w3 S3 R3 h
         exact this
@@ -698,9 +782,26 @@ theorem recursive_truncation_full {t t' : TTN} {kdim : Id → Nat} (h : t.WF)
   | none => simp [hr, bind, Option.bind] at hs
   | some r =>
     simp only [hr, bind, Option.bind] at hs
-    have := truncate_node_full _ t t' r h (arithIds_ok t) hs
+    have := truncate_node_full (P := False) (O := fun _ => []) _ t t' r ⟨h, False.elim, False.elim⟩
+      (fun hp => hp.elim) (arithIds_ok t) hs
     rw [hr] at this
-    exact this
+    exact ⟨this.1.wf, this.2⟩
+
+/-- **`recursive_truncation` at the level of labels**: the result is well-formed, satisfies the label
+    invariant, has the same root and exactly the same structure, and **every node has exactly the open axes
+    it had – same labels, same order, same dimensions**. -/
+theorem recursive_truncation_labels {t t' : TTN} {kdim : Id → Nat} (h : t.WF) (hl : t.LWF)
+    (hs : t.recursiveTruncation kdim = some t') :
+    t'.WF ∧ t'.LWF ∧ t'.root = t.root ∧ t'.S = t.S ∧ ∀ k, t'.openAxes k = t.openAxes k := by
+  unfold TTN.recursiveTruncation at hs
+  cases hr : t.root with
+  | none => simp [hr, bind, Option.bind] at hs
+  | some r =>
+    simp only [hr, bind, Option.bind] at hs
+    have := truncate_node_full (P := True) (O := t.openAxes) _ t t' r ⟨h, fun _ => hl, fun _ _ => rfl⟩
+      (fun _ k hk => openAxes_none (N_none_of_S hk)) (arithIds_ok t) hs
+    rw [hr] at this
+    exact ⟨this.1.wf, this.1.lwf trivial, this.2.1, this.2.2, this.1.op trivial⟩
 
 /-- `t'.S = t.S` read on the node dictionaries. -/
 theorem S_eq_explicit {t t' : TTN} (h : t'.S = t.S) :
